@@ -319,6 +319,7 @@ func (sd *SpecAnalyser) analyseResponseParams() {
 						if op1Header, ok := op1Headers[op2HeaderName]; ok {
 							diffs := sd.CompareProps(forHeader(op1Header), forHeader(op2Header))
 							sd.addDiffs(location, diffs)
+							sd.compareItems(location, op1Header.Items, op2Header.Items)
 						} else {
 							sd.Diffs = sd.Diffs.addDiff(SpecDifference{
 								DifferenceLocation: location.AddNode(getSchemaDiffNode(op2HeaderName, &op2Header.SimpleSchema)),
@@ -677,6 +678,17 @@ func (sd *SpecAnalyser) compareParams(urlMethod URLMethod, location string, name
 	}
 
 	sd.compareSimpleSchema(childLocation, &param1.SimpleSchema, &param2.SimpleSchema)
+	sd.compareItems(childLocation, param1.Items, param2.Items)
+}
+
+// compareItems compares the constraints on the items of an array parameter or header, at every depth
+func (sd *SpecAnalyser) compareItems(location DifferenceLocation, items1, items2 *spec.Items) {
+	for items1 != nil && items2 != nil {
+		if diffs := sd.CompareProps(&forItems(items1).SchemaProps, &forItems(items2).SchemaProps); len(diffs) > 0 {
+			sd.addDiffs(location, diffs)
+		}
+		items1, items2 = items1.Items, items2.Items
+	}
 }
 
 func (sd *SpecAnalyser) addTypeDiff(location DifferenceLocation, diff *TypeDiff) {
